@@ -205,6 +205,14 @@ def restore_regions(ctx, rule):
                     fp = find_prob_call(st.value)
                     if fp and U(fp[0]) == nb.new:
                         pprob = st.targets[0].id
+            if not pprob:
+                # the probability compared in place: if self._find_prob(<neighbour>, ..) <= max_prob
+                for n_ in ast.walk(loop):
+                    if isinstance(n_, ast.Compare):
+                        if not pprob:
+                            for side in [n_.left] + list(n_.comparators):
+                                if isinstance(side, ast.Call) and find_prob_call(side) and U(find_prob_call(side)[0]) == nb.new:
+                                    pprob = U(side)
             if pprob:
                 aterms = Terms({pprob: 'PP', amax: 'MAX'})
                 amod = ctx.repo.modules[PGF]
@@ -215,7 +223,7 @@ def restore_regions(ctx, rule):
                 A = set()
                 atab = {}
                 for rel in (LT, EQ, GT):
-                    outs = outcomes(loop.body, {('PP', 'MAX'): rel}, aterms, Hooks(allow_def={pprob}), exist)
+                    outs = outcomes(loop.body, {('PP', 'MAX'): rel}, aterms, Hooks(allow_def={pprob} if pprob.isidentifier() else set()), exist)
                     atab[rel] = sorted('%s %s' % (k, d) for k, d, t in outs)
                     kinds = {(k, d) for k, d, t in outs}
                     if kinds == {('return', 'True')}:
